@@ -325,6 +325,56 @@ class Evaluator:
             if not args[0].items:
                 raise Undefined("pop from empty array")
             return args[0].items.pop()
+        if name == "string_to_int":
+            # C strtoll semantics on the generated inputs: optional sign, leading digits, rest ignored, "" -> 0
+            import re as _re
+            m = _re.match(rb"\s*([+-]?\d+)", args[0])
+            return wrap(int(m.group(1))) if m else 0
+        if name in ("char_to_lower", "char_to_upper", "digit_value"):
+            c = args[0]
+            if name == "char_to_lower":
+                return c + 32 if 65 <= c <= 90 else c
+            if name == "char_to_upper":
+                return c - 32 if 97 <= c <= 122 else c
+            return c - 48 if 48 <= c <= 57 else -1
+        if name in ("is_digit", "is_alpha", "is_upper", "is_lower", "is_whitespace"):
+            c = args[0]
+            if not (0 <= c <= 127):
+                raise Undefined("character class of a non-ASCII code")
+            return {"is_digit": 48 <= c <= 57, "is_alpha": 65 <= c <= 90 or 97 <= c <= 122, "is_upper": 65 <= c <= 90,
+                    "is_lower": 97 <= c <= 122, "is_whitespace": c in (32, 9, 10, 13, 11, 12)}[name]
+        if name == "cast_int":
+            v = args[0]
+            if isinstance(v, bool):
+                return 1 if v else 0
+            if isinstance(v, float):
+                if v != v or v >= 9.2e18 or v <= -9.2e18:
+                    raise Undefined("cast_int of a float outside the int range")
+                return int(v)
+            return v
+        if name == "cast_bool":
+            return args[0] != 0 if not isinstance(args[0], bool) else args[0]
+        if name == "cast_float":
+            return float(args[0])
+        if name == "cast_string":
+            return fmt_value(args[0])
+        if name == "string_from_char":
+            return bytes([args[0]])
+        if name == "sqrt":
+            import math
+            return math.sqrt(args[0])
+        if name in ("floor", "ceil", "round"):
+            import math
+            v = args[0]
+            if abs(v) > 1e300:
+                raise Undefined("rounding a huge float")
+            if name == "floor":
+                r = float(math.floor(v))
+            elif name == "ceil":
+                r = float(math.ceil(v))
+            else:
+                r = float(math.floor(abs(v) + 0.5))                                  # C round(): halves away from zero
+            return math.copysign(r, v) if (r == 0.0 or name == "round") else r       # the sign of zero follows the argument
         if name == "array_slice":
             a, st, ln = args
             if st < 0 or ln < 0 or st + ln > len(a.items):
